@@ -1464,6 +1464,43 @@ func c12RealClientNameSpelling(c *mon.Ctx, r *gen.Rand) {
 			}
 		})
 	}
+	// a genuine document that lists, next to the key in use, old keys whose IDs hold characters that JSON writes as
+	// escapes (DEL, a control character, a quote, a non-BMP character): the document is as good as any, the key in use
+	// arrives (tenth seeding round, C12-U: member names re-quoted the Go way made the filtered text invalid JSON)
+	odd := gen.NewIdentity(r, "hs3.test", "ed25519:cur")
+	oddOld := gen.NewIdentity(r, "hs3.test", "ed25519:o")
+	oddDoc := sign(gen.Plain().Bytes(ref.O("server_name", ref.S("hs3.test"), "valid_until_ts", ref.I(future),
+		"verify_keys", ref.O("ed25519:cur", ref.O("key", ref.S(spec.Base64Bytes(odd.Pub).Encode()))),
+		"old_verify_keys", ref.O("ed25519:a\u007f", ref.O("key", ref.S(spec.Base64Bytes(oddOld.Pub).Encode()), "expired_ts", ref.I(retiredAt)),
+			"ed25519:b\u0001", ref.O("key", ref.S(spec.Base64Bytes(oddOld.Pub).Encode()), "expired_ts", ref.I(retiredAt)),
+			"ed25519:c\"q", ref.O("key", ref.S(spec.Base64Bytes(oddOld.Pub).Encode()), "expired_ts", ref.I(retiredAt)),
+			"ed25519:d\U0001F600", ref.O("key", ref.S(spec.Base64Bytes(oddOld.Pub).Encode()), "expired_ts", ref.I(retiredAt))))), odd, notary)
+	for _, path := range []string{"direct", "perspective"} {
+		name := "real-client:" + path + ":old-key-ids-that-need-escapes"
+		c.Case(name, map[string]any{"document": string(oddDoc), "path": path}, func() {
+			c.Nontrivial(name)
+			rt := c12RoundTripper(func(req *http.Request) (*http.Response, error) {
+				body, status := []byte(`{"errcode":"M_NOT_FOUND"}`), 404
+				switch {
+				case strings.HasSuffix(req.URL.Path, "/key/v2/query") && path == "perspective":
+					status, body = 200, []byte(`{"server_keys":[`+string(oddDoc)+`]}`)
+				case strings.HasSuffix(req.URL.Path, "/key/v2/server") && path == "direct":
+					status, body = 200, oddDoc
+				}
+				return &http.Response{StatusCode: status, Header: http.Header{"Content-Type": []string{"application/json"}}, Body: io.NopCloser(bytes.NewReader(body)), Request: req}, nil
+			})
+			client := fclient.NewClient(fclient.WithTransport(rt))
+			var fetcher gmsl.KeyFetcher = &gmsl.DirectKeyFetcher{Client: client, IsLocalServerName: func(spec.ServerName) bool { return false }}
+			if path == "perspective" {
+				fetcher = &gmsl.PerspectiveKeyFetcher{PerspectiveServerName: "notary.example", PerspectiveServerKeys: map[gmsl.KeyID]ed25519.PublicKey{gmsl.KeyID(notary.KeyID): notary.Pub}, Client: client}
+			}
+			res, ferr := fetcher.FetchKeys(context.Background(), map[keyReq]spec.Timestamp{{ServerName: "hs3.test", KeyID: "ed25519:cur"}: 0})
+			c.Count("real_client_fetches")
+			if got, ok := res[keyReq{ServerName: "hs3.test", KeyID: "ed25519:cur"}]; !ok || string(got.Key) != string(odd.Pub) {
+				c.Failf("realclient:drops-good-response:"+path+":old-key-ids-that-need-escapes", "a genuine, current key document whose old_verify_keys have IDs with DEL / a control character / a quote / a non-BMP character yielded no key for the ID in use (%s path, error %v)", path, ferr)
+			}
+		})
+	}
 	name := "real-client:direct:retired-key"
 	c.Case(name, map[string]any{"document": string(hs2Doc)}, func() {
 		c.Nontrivial(name)
